@@ -6,6 +6,7 @@
 package c07
 
 import (
+	"encoding/json"
 	"fmt"
 	"math/rand/v2"
 	"runtime"
@@ -214,8 +215,8 @@ func TestC07(t *testing.T) {
 
 	// ---- rule sets ----
 	acts := []string{"get", "info", "put", "activate", "delete", "ge", "gett", "", "*", "GET"}
-	rpats := []string{"a", "b", "a/b", "*", "a/*", "*b", "a*b", "**", "", "a.b", "a\nb", "x", "dev/*", "*/key", "é", "équipe/*", "秘密/*", "*/🔑", "é*é", "日本", "a\\E*"}
-	rnames := []string{"a", "b", "a/b", "ab", "a/x/b", "", "a.b", "axb", "a\nb", "dev/key", "x", "dev/", "_internal/x", "é", "équipe/", "équipe/x", "秘密/db", "秘密/", "k/🔑", "éé", "日本", "a\\Eb"}
+	rpats := []string{"a", "b", "a/b", "*", "a/*", "*b", "a*b", "**", "", "a.b", "a\nb", "x", "dev/*", "*/key", "é", "équipe/*", "秘密/*", "*/🔑", "é*é", "日本", "a\\E*", " a", "a\n", "*\n", " ", "\ta/*\t", "a "}
+	rnames := []string{"a", "b", "a/b", "ab", "a/x/b", "", "a.b", "axb", "a\nb", "dev/key", "x", "dev/", "_internal/x", "é", "équipe/", "équipe/x", "秘密/db", "秘密/", "k/🔑", "éé", "日本", "a\\Eb", " a", "a\n", "x\n", " ", "\ta/b\t", "a ", "a/b"}
 	genRules := func(rng *rand.Rand) []refmodel.Rule {
 		n := rng.IntN(5)
 		rules := make([]refmodel.Rule, 0, n)
@@ -255,6 +256,18 @@ func TestC07(t *testing.T) {
 			if pan != nil || got != want {
 				r.Violation("allow-differs", -1, fmt.Sprintf("Rules{{get,[%q]}}.Allow(get,%q)=%t (panic %v), the pattern matches the name: %t", pat, name, got, pan, want), map[string]any{"pattern": pat, "name": name})
 			}
+			// the same rule as it really arrives: as JSON (policy file / capability grant)
+			doc, _ := json.Marshal([]refmodel.Rule{{Actions: []string{"get"}, Patterns: []string{pat}}})
+			var viaJSON acl.Rules
+			if err := json.Unmarshal(doc, &viaJSON); err != nil {
+				r.Violation("rule-json-rejected", -1, fmt.Sprintf("a rule with pattern %q does not decode from JSON: %v", pat, err), nil)
+				continue
+			}
+			gotJ, panJ := safeAllow(viaJSON, "get", name)
+			r.Count("ruleset_decisions_via_json", 1)
+			if panJ != nil || gotJ != want {
+				r.Violation("allow-differs-via-json", -1, fmt.Sprintf("the rule {get,[%q]} decoded from JSON %s: Allow(get,%q)=%t (panic %v), the pattern matches the name: %t", pat, doc, name, gotJ, panJ, want), map[string]any{"pattern": pat, "name": name})
+			}
 		}
 	}
 	nSets := r.N(5000, 100000)
@@ -291,6 +304,15 @@ func TestC07(t *testing.T) {
 				r.Violation("allow-differs", ci, fmt.Sprintf("Rules.Allow(%q,%q)=%t but a single rule listing the action with a matching pattern exists=%t", act, name, got, want),
 					map[string]any{"rules": rules, "action": act, "name": name, "got": got, "want": want})
 			}
+			if k == 0 {
+				doc, _ := json.Marshal(rules)
+				var viaJSON acl.Rules
+				if err := json.Unmarshal(doc, &viaJSON); err == nil {
+					if gj, _ := safeAllow(viaJSON, acl.Action(act), name); gj != want {
+						r.Violation("allow-differs-via-json", ci, fmt.Sprintf("rule set decoded from JSON %s: Allow(%q,%q)=%t, want %t", doc, act, name, gj, want), map[string]any{"rules": rules})
+					}
+				}
+			}
 			gotPlus, _ := safeAllow(realPlus, acl.Action(act), name)
 			if got && !gotPlus {
 				r.Violation("allow-not-monotone", ci, "adding rules revoked access", map[string]any{"rules": rules, "extra": extra, "action": act, "name": name})
@@ -304,6 +326,6 @@ func TestC07(t *testing.T) {
 			}
 		}
 	}
-	r.Require("exhaustive_pairs", "exhaustive_pairs_matching", "random_pairs", "random_pairs_matching", "ruleset_allowed", "ruleset_refused")
+	r.Require("exhaustive_pairs", "exhaustive_pairs_matching", "random_pairs", "random_pairs_matching", "ruleset_allowed", "ruleset_refused", "ruleset_decisions_via_json")
 	r.Rule("exhaustive: every (pattern,name) pair of the bounded spaces listed in exhaustive_spaces; random: Unicode patterns up to ~40 pieces with names derived by substituting each '*' and optionally perturbing; rule sets of 0-4 rules with 0-3 actions/patterns. A case is non-trivial/distinct by (number of stars capped at 3, leading star, trailing star, has regexp metacharacter, has newline, expected outcome) resp. (rule-set size, expected decision)")
 }
